@@ -28,8 +28,10 @@ ASSUMPTIONS = [
     "numpy.random states are seeded from the case before every call and several seeds are run "
     "per input",
     "generative models are called inside their documented domain: hyperedge sizes >= 2 and <= "
-    "number of nodes; scale_free counts <= C(n,size)/2 and scales > 0 (the rejection sampling "
-    "terminates); corr_target in [0,1] only with correlated=True and num_shuffles=0; "
+    "number of nodes (random_hypergraph / random_uniform_hypergraph: sizes >= 1, their docstrings "
+    "set no lower bound); scale_free counts <= C(n,size)/2 (size = n: <= 1) and scales > 0 (the "
+    "rejection sampling terminates); corr_target in [0,1] only with correlated=True or omitted "
+    "and num_shuffles=0; "
     "HOAD orders 1..N-1 and activities in [0,1]; add_random_edges asks for at most C(n,size) "
     "hyperedges",
     "random_shuffle: 'replacement nodes only from the rewired hyperedges' is decided as: there "
@@ -37,8 +39,18 @@ ASSUMPTIONS = [
     "fraction p of them') that contains every hyperedge that disappeared and whose nodes cover "
     "every hyperedge that appeared (exhaustive search over R, m <= 8)",
     "a drawn hyperedge that coincides with an existing one (add_random_edge(s)) may update that "
-    "hyperedge's weight and metadata (add_edge documents the weight update); at most "
+    "hyperedge (add_edge documents the weight update), but only in this shape: weight unchanged "
+    "or increased by a whole number, metadata unchanged or reset to {}; at most "
     "num_edges - |new| existing hyperedges of the requested size may change, all others not",
+    "HOADmodel: a record of size o+1 stems from order o (orders are distinct keys) and is created "
+    "by a member node that activated with probability activities[o][node]; so it holds a node of "
+    "positive activity at order o and an all-zero order emits nothing (random() == 0.0 aside)",
+    "inplace=False returns an independent object (copy()): after the checks the returned "
+    "hypergraph is modified through the public API (metadata attributes, weight, a hyperedge "
+    "removed, one added) and the argument must still be unchanged (key 'argument-aliased')",
+    "omitted arguments take their documented defaults: inplace=True (add_random_edge(s), "
+    "random_shuffle, random_shuffle_all_orders), p=1.0, correlated=True",
+    "a seed argument is varied from call to call within a case (seed, seed+1, ...)",
     "for 0 < p < 1 weights/metadata of the hyperedges of the shuffled size are not claimed; "
     "for p = 0 the complete public observation (nodes+metadata, hyperedges+weights+metadata, "
     "degrees, weighted flag, hypergraph metadata) must be unchanged",
@@ -116,13 +128,18 @@ def _check_generated(what, n, requested, nodes, edges, exact):
                     % (what, c, k, by[k], lo, c), key="count")
 
 
+def _seed_arg(case, i):
+    """The seed argument of the i-th call of a case: varied per call, so that calls with a seed
+    argument do not all repeat one draw (a pure function of the case)."""
+    return None if case["seed"] is None else case["seed"] + i
+
+
 def _check_rh(case, ctx, uniform):
     from hypergraphx.generation.random import random_hypergraph, random_uniform_hypergraph
     n = case["n"]
     requested = {int(k): int(c) for k, c in case["sizes"]}
-    seed = case["seed"]
 
-    def call(g):
+    def call(g, seed):
         _seed(g)
         kw = {} if seed is None else {"seed": seed}
         if uniform:
@@ -130,31 +147,28 @@ def _check_rh(case, ctx, uniform):
             return random_uniform_hypergraph(n, k, c, **kw)
         return random_hypergraph(n, dict(requested), **kw)
 
-    if uniform:
-        what = "random_uniform_hypergraph(%d, %d, %d, seed=%r)" % (
-            (n,) + tuple(requested.items())[0] + (seed,))
-    else:
-        what = "random_hypergraph(%d, %r, seed=%r)" % (n, requested, seed)
     results = []
-    for g in case["gseeds"]:
-        out = call(g)
+    for i, g in enumerate(case["gseeds"]):
+        seed = _seed_arg(case, i)
+        if uniform:
+            what = "random_uniform_hypergraph(%d, %d, %d, seed=%r)" % (
+                (n,) + tuple(requested.items())[0] + (seed,))
+        else:
+            what = "random_hypergraph(%d, %r, seed=%r)" % (n, requested, seed)
+        out = call(g, seed)
         nodes, edges = _obs_generated(out, what + " [global seed %d]" % g)
         ctx.trace = {"call": what, "global_seed": g, "edges": [list(e) for e in edges]}
         _check_generated(what + " [global seed %d]" % g, n, requested, nodes, edges, exact=False)
         results.append((Counter(nodes), set(edges)))
-    if seed is not None:
-        # the seed argument alone decides the outcome, whatever the global state was
-        g0 = case["gseeds"][0]
-        again = call(g0 + 1)
-        nodes, edges = _obs_generated(again, what)
-        require((Counter(nodes), set(edges)) == results[0],
-                lambda: "%s called twice (global RNG state different) returned different "
-                "hypergraphs: %s vs %s" % (what, _short(sorted(results[0][1])),
-                                           _short(sorted(edges))), key="seed")
-        for r in results[1:]:
-            require(r == results[0],
-                    lambda: "%s called twice returned different hypergraphs: %s vs %s"
-                    % (what, _short(sorted(results[0][1])), _short(sorted(r[1]))), key="seed")
+        if seed is not None:
+            # the seed argument alone decides the outcome, whatever the global state was
+            again = call(g + 1, seed)
+            nodes2, edges2 = _obs_generated(again, what)
+            require((Counter(nodes2), set(edges2)) == results[-1],
+                    lambda: "%s called twice (global RNG state different) returned different "
+                    "hypergraphs: %s vs %s" % (what, _short(sorted(edges)),
+                                               _short(sorted(edges2))), key="seed")
+    if case["seed"] is not None:
         ctx.label("seed argument")
     else:
         # no seed argument: nothing is claimed about reproducibility (the property speaks of
@@ -162,12 +176,16 @@ def _check_rh(case, ctx, uniform):
         ctx.label("global seed")
     pos = [k for k, c in requested.items() if c >= 1]
     ctx.label("sizes requested: %d" % len(requested))
+    if 1 in requested:
+        ctx.label("size 1 requested")
     if any(c == 0 for c in requested.values()):
         ctx.label("a count of 0")
     if any(c > math.comb(n, k) for k, c in requested.items()):
         ctx.label("count > C(n,size)")
     if len({frozenset(r[1]) for r in results}) > 1:
-        ctx.label("outcomes differ between global seeds")
+        ctx.label("outcomes differ between calls")
+        if case["seed"] is not None:
+            ctx.label("seed argument varied: outcomes differ between calls")
     ctx.nontrivial(len(pos) >= 2 if not uniform else (len(pos) == 1 and requested[pos[0]] >= 2))
 
 
@@ -182,7 +200,10 @@ def check_random_uniform(case, ctx):
 @st.composite
 def _rh_cases(draw, tier, uniform):
     n = draw(st.integers(2, 9 if tier != "quick" else 8))
-    ks = list(range(2, min(n, 5) + 1))
+    # sizes 2..5 first (Hypothesis favours the head of the list); singletons are admissible too
+    # (the docstrings set no lower bound on the size)
+    ks = list(range(2, min(n, 5) + 1)) + ([1] if draw(st.sampled_from([False, False, True]))
+                                          else [])
     if uniform:
         sizes = [[draw(st.sampled_from(ks)), draw(st.sampled_from([3, 0, 1, 2, 5, 8, 12]))]]
     else:
@@ -198,7 +219,8 @@ def _rh_cases(draw, tier, uniform):
 # ---------------------------------------------------------------------------
 # scale_free_hypergraph
 
-MODES = ["default", "uncorrelated", "corr_target", "shuffles", "correlated_only"]
+MODES = ["default", "uncorrelated", "corr_target", "shuffles", "correlated_only",
+         "corr_target_only"]
 
 
 def check_scale_free(case, ctx):
@@ -215,6 +237,9 @@ def check_scale_free(case, ctx):
         kw = {"num_shuffles": case["num_shuffles"]}
     elif mode == "correlated_only":
         kw = {"correlated": True}
+    elif mode == "corr_target_only":
+        # corr_target given, `correlated` left at its default (True: the combination is valid)
+        kw = {"corr_target": case["corr_target"]}
     what0 = "scale_free_hypergraph(%d, %r, %r%s)" % (
         n, requested, {int(k): s for k, _c, s in case["sizes"]},
         "".join(", %s=%r" % kv for kv in kw.items()))
@@ -231,6 +256,8 @@ def check_scale_free(case, ctx):
     ctx.label("mode=" + mode, "sizes requested: %d" % len(requested))
     if any(c == 0 for c in requested.values()):
         ctx.label("a count of 0")
+    if n in requested:
+        ctx.label("size = number of nodes")
     if len(outcomes) > 1:
         ctx.label("outcomes differ between seeds")
     ctx.nontrivial(sum(1 for c in requested.values() if c >= 1) >= 2)
@@ -239,13 +266,16 @@ def check_scale_free(case, ctx):
 @st.composite
 def _sf_cases(draw, tier):
     n = draw(st.sampled_from([6, 3, 4, 5, 7, 8] + ([9] if tier != "quick" else [])))
-    # sizes k < n only: C(n,n)/2 = 0 would force a count of 0
-    ks = [k for k in (2, 3, 4) if k < n]
+    # k = n is admissible too, with a count of at most 1 (there is one such hyperedge: asking
+    # for more never terminates)
+    ks = [k for k in (2, 3, 4) if k < n] + (
+        [n] if n <= 5 and draw(st.sampled_from([False, False, True])) else [])
     chosen = draw(st.lists(st.sampled_from(ks), min_size=min(len(ks), draw(st.sampled_from(
         [2, 1, 2, 3]))), max_size=len(ks), unique=True))
     sizes = []
     for k in chosen:
-        cap = math.comb(n, k) // 2          # rejection sampling of distinct hyperedges terminates
+        # rejection sampling of distinct hyperedges terminates
+        cap = math.comb(n, k) // 2 if k < n else 1
         c = draw(st.sampled_from([min(cap, x) for x in (3, 0, 1, 2, 5, 8, cap)]))
         sizes.append([k, c, draw(st.sampled_from([1.0, 0.5, 2.0, 10.0]))])
     mode = draw(st.sampled_from(MODES))
@@ -298,6 +328,16 @@ def check_hoad(case, ctx):
             require(isinstance(_py(t), int) and 0 <= t < horizon,
                     lambda: "%s: record %r has a time outside [0, %d)" % (what, rec, horizon),
                     key="time")
+            # activity-driven sampling rule: a hyperedge of order o is created by a node that
+            # activates with probability activities[o][node] and is a member of the hyperedge
+            # it creates.  Orders are distinct keys, so a record of size o+1 stems from order o
+            # and holds a node whose activity at order o is positive (a node of activity 0
+            # never activates; "0 > random()" is impossible).
+            a = acts[len(e) - 1]
+            require(any(a[x] > 0 for x in e),
+                    lambda: "%s: record %r has size %d but none of its nodes is active at order "
+                    "%d (activities %r): no node can have created it"
+                    % (what, rec, len(e), len(e) - 1, a), key="no-activator")
         for x in out.get_nodes():
             require(isinstance(_py(x), int) and 0 <= x < N,
                     lambda: "%s: node %r outside 0..%d" % (what, x, N - 1), key="foreign-node")
@@ -305,6 +345,11 @@ def check_hoad(case, ctx):
     ctx.label("orders: %d" % len(acts), "time omitted" if time is None else
               "time=0" if time == 0 else "time>0")
     ctx.label("no record emitted" if total == 0 else "records emitted")
+    zero = [o for o, a in acts.items() if not any(a)]
+    if zero and len(zero) < len(acts):
+        ctx.label("an all-zero order next to an active one")
+    if any(0 < sum(1 for x in a if x > 0) < N for a in acts.values()):
+        ctx.label("some nodes inactive at an order")
     ctx.nontrivial(total >= 2 and len(acts) >= 1 and horizon >= 2)
 
 
@@ -314,7 +359,21 @@ def _hoad_cases(draw, tier):
     orders = draw(st.lists(st.integers(1, min(N - 1, 4)), min_size=1, max_size=min(N - 1, 3),
                            unique=True))
     act = st.sampled_from([0.5, 0.0, 1.0, 0.1, 0.9])
-    recs = [[o, draw(st.lists(act, min_size=N, max_size=N))] for o in orders]
+    recs = []
+    for o in orders:
+        # all-zero vectors (the order emits nothing) and vectors with a single active node make
+        # "which order / which node created this record" decidable
+        kind = draw(st.sampled_from(["mixed", "zero", "single", "mixed", "sparse"]))
+        if kind == "zero":
+            vec = [0.0] * N
+        elif kind == "single":
+            vec = [0.0] * N
+            vec[draw(st.integers(0, N - 1))] = draw(st.sampled_from([1.0, 0.5, 0.9]))
+        elif kind == "sparse":
+            vec = draw(st.lists(st.sampled_from([0.0, 0.0, 1.0, 0.5]), min_size=N, max_size=N))
+        else:
+            vec = draw(st.lists(act, min_size=N, max_size=N))
+        recs.append([o, vec])
     time = draw(st.sampled_from([3, 0, 1, 2, 6, 10, None]))
     return {"N": N, "orders": recs, "time": time,
             "gseeds": draw(st.lists(S.seeds, min_size=1 if time is None else 2,
@@ -403,6 +462,39 @@ def _result(what, fn_inplace_none, hg, ret, inplace, before):
     _unchanged(what + ": inplace=False must leave its argument untouched, but", before,
                _obs(hg, what), "argument-modified")
     return ret
+
+
+def _independent(what, hg, ret, before, ctx):
+    """inplace=False: the returned object shares nothing with the argument (copy()'s contract):
+    changes made to it afterwards through the public API do not show in the argument."""
+    edges = sorted((_cedge(e, what) for e in ret.get_edges()), key=lambda e: (len(e), repr(e)))
+    nodes = sorted((_py(x) for x in ret.get_nodes()), key=repr)
+    weighted = ret.is_weighted()
+    ret.set_attr_to_hypergraph_metadata("probe", 1)
+    if nodes:
+        ret.set_attr_to_node_metadata(nodes[0], "probe", 1)
+        ret.set_node_metadata(nodes[-1], {"probe": 2})
+    if edges:
+        ret.set_attr_to_edge_metadata(edges[0], "probe", 1)
+        if weighted:
+            ret.set_weight(edges[0], ret.get_weight(edges[0]) + 7)
+        ret.remove_edge(edges[-1])
+    have = set(edges)
+    fresh = next((c for k in (2, 3, 1) for c in itertools.combinations(nodes, k)
+                  if tuple(sorted(c)) not in have), None)
+    if fresh is not None:
+        ret.add_edge(fresh, weight=3 if weighted else None, metadata={"probe": 3})
+    _unchanged(what + ": inplace=False: changes made afterwards to the RETURNED hypergraph show "
+               "in the argument:", before, _obs(hg, what), "argument-aliased")
+    ctx.label("inplace=False: returned object modified afterwards")
+
+
+# None = argument omitted (documented default: inplace=True)
+INPLACE = st.sampled_from([False, True, False, True, None])
+
+
+def _inplace(case):
+    return True if case["inplace"] is None else case["inplace"]
 
 
 def _context_kept(what, before, after):
@@ -499,6 +591,18 @@ def _check_added(what, before, after, size, num, ctx):
         require(len(e) == size,
                 lambda: "%s: hyperedge %r of another size changed: (weight, metadata) before %s, "
                 "after %s" % (what, e, _short(b[e]), _short(a[e])), key="other-changed")
+        # the statement is silent on what a coinciding draw does to the existing hyperedge;
+        # add_edge documents "its weight is updated": a weight may stay or grow by a whole
+        # number (one per coinciding draw), metadata may stay or be reset -- nothing else
+        (wb, mb), (wa, ma) = b[e], a[e]
+        require(wa == wb or (wa > wb and float(wa - wb).is_integer()),
+                lambda: "%s: existing hyperedge %r (a coinciding draw at most): weight before %r, "
+                "after %r (expected unchanged or increased by a whole number)"
+                % (what, e, wb, wa), key="coinciding-weight")
+        require(ma == mb or ma == {},
+                lambda: "%s: existing hyperedge %r (a coinciding draw at most): metadata before "
+                "%s, after %s (expected unchanged or reset to {})"
+                % (what, e, _short(mb), _short(ma)), key="coinciding-metadata")
     require(len(new) + len(changed) <= num,
             lambda: "%s: %d hyperedge(s) requested but %d appeared (%s) and %d existing one(s) "
             "changed (%s)" % (what, num, len(new), _short(new), len(changed), _short(changed)),
@@ -509,8 +613,8 @@ def _check_added(what, before, after, size, num, ctx):
     if n_after < num:
         ctx.label("fewer hyperedges of the size than requested draws")
     if changed:
-        ctx.exclude("drawn hyperedge coincides with an existing one: its weight/metadata may be "
-                    "updated (not compared)")
+        ctx.exclude("drawn hyperedge coincides with an existing one: its weight may grow by a "
+                    "whole number and its metadata may be reset")
     if len(new) < num:
         ctx.label("a drawn hyperedge already existed")
     return new
@@ -520,15 +624,17 @@ def _check_add(case, ctx, many):
     from hypergraphx.generation.random import add_random_edge, add_random_edges
     _label_input(case, ctx)
     ever_new = False
-    for g in case["gseeds"]:
+    inplace = _inplace(case)
+    for i, g in enumerate(case["gseeds"]):
         hg = _build(case)
         before = _obs(hg, "input")
         n_nodes = len(before["nodes"])
         size = 1 + case["size_raw"] % min(n_nodes, 5)
         kw = dict(_size_kw(case, size))
-        kw["inplace"] = case["inplace"]
+        if case["inplace"] is not None:
+            kw["inplace"] = case["inplace"]
         if case["seed"] is not None:
-            kw["seed"] = case["seed"]
+            kw["seed"] = _seed_arg(case, i)
         if many:
             num = min(case["num"], math.comb(n_nodes, size))
             what = "add_random_edges(h, %d, %s) [global seed %d]" % (
@@ -543,11 +649,14 @@ def _check_add(case, ctx, many):
             ret = add_random_edge(hg, **kw)
         ctx.trace = {"call": what, "input_edges": _short(sorted(before["edges"].items(),
                                                               key=repr), 1500)}
-        res = _result(what, True, hg, ret, case["inplace"], before)
+        res = _result(what, True, hg, ret, inplace, before)
         after = _obs(res, what)
         new = _check_added(what, before, after, size, num, ctx)
         ever_new = ever_new or bool(new)
-    ctx.label("inplace=%r" % case["inplace"], "by=" + case["by"],
+        if not inplace:
+            _independent(what, hg, ret, before, ctx)
+    ctx.label("inplace=%s" % ("omitted" if case["inplace"] is None else case["inplace"]),
+              "by=" + case["by"],
               "seed argument" if case["seed"] is not None else "global seed")
     if many:
         ctx.label("num=0" if case["num"] == 0 else "num>=1")
@@ -567,7 +676,7 @@ def _add_cases(draw, tier, many):
     case = draw(_hg_inputs(tier, main_min=(3, 2, 4)))
     case["size_raw"] = draw(st.integers(0, 4)) if draw(st.booleans()) else case["main_size"] - 1
     case["by"] = draw(st.sampled_from(["size", "order"]))
-    case["inplace"] = draw(st.booleans())
+    case["inplace"] = draw(INPLACE)
     case["seed"] = draw(st.one_of(st.none(), S.seeds))
     if many:
         case["num"] = draw(st.sampled_from([3, 0, 1, 2, 4, 6]))
@@ -630,17 +739,19 @@ def _others_kept(what, before, after, shuffled_sizes):
                                              _short(a.get(e, "<absent>"))), key="others-changed")
 
 
-def _shuffle_call(case, hg, g, all_orders, p, size):
+def _shuffle_call(case, hg, g, all_orders, p, size, i=0):
     from hypergraphx.generation.random import random_shuffle, random_shuffle_all_orders
     kw = {}
     if not all_orders:
         kw.update(_size_kw(case, size))
-    kw["p"] = p[0] / p[1]
-    kw["inplace"] = case["inplace"]
+    if p is not None:                     # None = argument omitted (documented default 1.0)
+        kw["p"] = p[0] / p[1]
+    if case["inplace"] is not None:
+        kw["inplace"] = case["inplace"]
     if case["preserve_degree"]:
         kw["preserve_degree"] = True
     if case["seed"] is not None:
-        kw["seed"] = case["seed"]
+        kw["seed"] = _seed_arg(case, i)
     name = "random_shuffle_all_orders" if all_orders else "random_shuffle"
     what = "%s(h, %s) [global seed %d]" % (name, ", ".join("%s=%r" % kv for kv in kw.items()), g)
     _seed(g)
@@ -650,17 +761,19 @@ def _shuffle_call(case, hg, g, all_orders, p, size):
 
 def _check_shuffle(case, ctx, all_orders):
     _label_input(case, ctx)
-    p = case["p"]
+    p_arg = case["p"]
+    p = [1, 1] if p_arg is None else p_arg
+    inplace = _inplace(case)
     changed = False
     m_main = 0
-    for g in case["gseeds"]:
+    for i, g in enumerate(case["gseeds"]):
         hg = _build(case)
         before = _obs(hg, "input")
         present = {len(e) for e in before["edges"]}
         size = None if all_orders else _size_arg(case, present, len(before["nodes"]))
-        what, ret = _shuffle_call(case, hg, g, all_orders, p, size)
+        what, ret = _shuffle_call(case, hg, g, all_orders, p_arg, size, i)
         ctx.trace = {"call": what, "input": _short(sorted(before["edges"].items(), key=repr), 1500)}
-        res = _result(what, not all_orders, hg, ret, case["inplace"], before)
+        res = _result(what, not all_orders, hg, ret, inplace, before)
         after = _obs(res, what)
         ctx.trace["output"] = _short(sorted(after["edges"].items(), key=repr), 1500)
         _context_kept(what, before, after)
@@ -673,7 +786,10 @@ def _check_shuffle(case, ctx, all_orders):
         extra_sizes = {len(e) for e in after["edges"]} - present - set(shuffled)
         require(not extra_sizes, lambda: "%s: hyperedges of new sizes %r appeared"
                 % (what, sorted(extra_sizes)), key="size")
-    ctx.label("inplace=%r" % case["inplace"], "p=1" if p[0] == p[1] else "0<p<1",
+        if not inplace:
+            _independent(what, hg, ret, before, ctx)
+    ctx.label("inplace=%s" % ("omitted" if case["inplace"] is None else case["inplace"]),
+              "p omitted" if p_arg is None else "p=1" if p[0] == p[1] else "0<p<1",
               "changed" if changed else "unchanged",
               "seed argument" if case["seed"] is not None else "global seed")
     if case["preserve_degree"]:
@@ -695,22 +811,27 @@ def check_shuffle_p0(case, ctx):
     """p = 0 changes nothing observable (both functions, in place or not)."""
     _label_input(case, ctx)
     all_orders = case["fn"] == "all_orders"
-    for g in case["gseeds"]:
+    inplace = _inplace(case)
+    for i, g in enumerate(case["gseeds"]):
         hg = _build(case)
         before = _obs(hg, "input")
         present = {len(e) for e in before["edges"]}
         size = None if all_orders else _size_arg(case, present, len(before["nodes"]))
-        what, ret = _shuffle_call(case, hg, g, all_orders, [0, 1], size)
+        what, ret = _shuffle_call(case, hg, g, all_orders, [0, 1], size, i)
         ctx.trace = {"call": what, "input": _short(sorted(before["edges"].items(), key=repr), 1500)}
-        res = _result(what, not all_orders, hg, ret, case["inplace"], before)
+        res = _result(what, not all_orders, hg, ret, inplace, before)
         after = _obs(res, what)
         _unchanged(what + ": p=0 must change nothing observable, but", before, after, "p0-changed")
-    ctx.label("fn=" + case["fn"], "inplace=%r" % case["inplace"])
+        if not inplace:
+            _independent(what, hg, ret, before, ctx)
+    ctx.label("fn=" + case["fn"],
+              "inplace=%s" % ("omitted" if case["inplace"] is None else case["inplace"]))
     carries = case["weighted"] or (case["emeta"] is not None and any(case["emeta"]))
     ctx.nontrivial(carries and len(case["edges"]) >= 3)
 
 
-P_POOL = [[1, 2], [1, 1], [1, 4], [1, 3], [2, 3], [3, 4], [1, 10], [9, 10]]
+# None = argument omitted (documented default p=1.0)
+P_POOL = [[1, 2], [1, 1], [1, 4], [1, 3], [2, 3], [3, 4], [1, 10], [9, 10], None]
 
 
 @st.composite
@@ -722,7 +843,7 @@ def _shuffle_cases(draw, tier, all_orders, p0=False):
         case["p"] = draw(st.sampled_from(P_POOL))
     case["size_sel"] = draw(st.sampled_from([0, 0, 1, 2, 9]))
     case["by"] = draw(st.sampled_from(["size", "order"]))
-    case["inplace"] = draw(st.booleans())
+    case["inplace"] = draw(INPLACE)
     case["preserve_degree"] = draw(st.sampled_from([False, True]))
     case["seed"] = draw(st.one_of(st.none(), S.seeds))
     case["gseeds"] = draw(st.lists(S.seeds, min_size=2, max_size=3, unique=True))
